@@ -1,4 +1,4 @@
-import PEval.Lemmas.GeometryClip
+import PEval.Lemmas.GeometryClipArea
 /-!
 # C06 — matching scores are geometrically exact, bounded and symmetric
 
@@ -300,5 +300,227 @@ example : InterOK (rectInter ⟨0, 0, 2, 2⟩ ⟨1, 1, 2, 2⟩) (Rect.area ⟨0,
 example : InterOK (1 : Rat) 4 6 ∧ (0 : Rat) < 4 ∧ iou3d 1 4 6 2 3 (heightInter 0 2 1 3) ≤ iou 1 4 6 :=
   have h : InterOK (1 : Rat) 4 6 := ⟨by norm_num, by norm_num, by norm_num⟩
   ⟨h, by norm_num, iou3d_le_iouBev 0 2 1 3 h (by norm_num) (by norm_num) (by norm_num) (by norm_num)⟩
+
+/-! ## strengthening (audit Part 1 item 4): the area contract for ROTATED boxes
+
+What is PROVED for the exact clipper `interArea` on two rotated boxes (no contract hypothesis):
+`0 ≤ I`, `I ≤ A(subject)` (`interOK_clip_partial`; more generally `clip_interArea_le_subject` for EVERY
+subject in convex position and ANY clip polygon), `I(P,P) = A(P)`, nested boxes, rigid invariance (above),
+and `I = 0` for two separated boxes whichever box owns the separating edge (`clip_interArea_separated`,
+touching allowed).
+
+What is NOT proved: `interArea P Q = interArea Q P` (the two clipping orders produce different vertex
+lists of the same region) and hence `I ≤ A(clip)`.  Full statement, kept as a comment:
+
+    theorem interOK_clip (e g : Box) (he : e.PosSize) (hg : g.PosSize) (hre : e.rot.IsUnit) (hrg : g.rot.IsUnit) :
+        InterOK (interArea (footprint e) (footprint g)) (areaBev e) (areaBev g)
+
+It is proved GIVEN the single equation `interArea (footprint e) (footprint g) = interArea (footprint g)
+(footprint e)` for that pair (`interOK_clip_of_symm`); the check evaluates both sides exactly on every
+generated pair (`inter` / `inter_swapped` of the driver, compared in `harness/props/c06.py`).  The
+symmetrised function `interSym P Q = min (interArea P Q) (interArea Q P)` — equal to `interArea P Q`
+whenever that equation holds (`interSym_eq_clip_of_symm`) — meets the WHOLE contract by theorem
+(`interOK_sym`, `interSym_symm`, …), so every IoU clause (bounds, symmetry, 1 for identical, 0 for
+separated, 3-D ≤ BEV, rigid invariance, no ZeroDivisionError) is a theorem about a concrete intersection
+function of two rotated boxes (`symIou_*`). -/
+
+/-- the exact intersection area never exceeds the area of the subject, for every subject in convex
+position (every triple of vertices in list order counter-clockwise or collinear) and any clip polygon -/
+theorem clip_interArea_le_subject (P Q : List V2) (hP : Cvx P) : interArea P Q ≤ polyArea P :=
+  interArea_le_subject Q hP
+
+/-- the contract fields PROVED for the exact clipper on two rotated boxes: `0 ≤ I ≤ A(e)` -/
+theorem interOK_clip_partial (e g : Box) (he : e.PosSize) (hre : e.rot.IsUnit) :
+    0 ≤ interArea (footprint e) (footprint g) ∧ interArea (footprint e) (footprint g) ≤ areaBev e :=
+  ⟨interArea_nonneg _ _, interArea_footprint_le_subject e g (le_of_lt he.1) (le_of_lt he.2.1) hre⟩
+
+/-- the whole contract for the exact clipper on a pair on which it is symmetric (one exact equation,
+evaluated by the check on every generated pair) -/
+theorem interOK_clip_of_symm (e g : Box) (he : e.PosSize) (hg : g.PosSize) (hre : e.rot.IsUnit)
+    (hrg : g.rot.IsUnit)
+    (hs : interArea (footprint e) (footprint g) = interArea (footprint g) (footprint e)) :
+    InterOK (interArea (footprint e) (footprint g)) (areaBev e) (areaBev g) :=
+  ⟨interArea_nonneg _ _, (interOK_clip_partial e g he hre).2, by rw [hs]; exact (interOK_clip_partial g e hg hrg).2⟩
+
+/-- `I = 0` for two separated rotated boxes (a separating edge of EITHER footprint, touching allowed) -/
+theorem clip_interArea_separated (e g : Box) (he : e.PosSize) (hg : g.PosSize) (hre : e.rot.IsUnit)
+    (hrg : g.rot.IsUnit) (h : Separated e g) : interArea (footprint e) (footprint g) = 0 :=
+  interArea_footprint_separated he hg hre hrg h
+
+/-- with the exact clipper: BEV and 3-D IoU of two separated rotated boxes are 0 (replaces the
+content-free `iou_disjoint_eq_zero`) -/
+theorem clipIou_separated_eq_zero (e g : Box) (he : e.PosSize) (hg : g.PosSize) (hre : e.rot.IsUnit)
+    (hrg : g.rot.IsUnit) (h : Separated e g) :
+    boxIou2d (interArea (footprint e) (footprint g)) e g = 0 ∧
+    boxIou3d (interArea (footprint e) (footprint g)) e g = 0 := by
+  rw [clip_interArea_separated e g he hg hre hrg h]
+  refine ⟨iou_zero _ _, ?_⟩
+  unfold boxIou3d iou3d; rw [zero_mul]; exact iou_zero _ _
+
+/-- with the exact clipper, on a pair on which it is symmetric: both IoUs lie in [0,1], 3-D ≤ BEV, the
+code's divisions do not raise -/
+theorem clipIou_bounds_of_symm (e g : Box) (he : e.PosSize) (hg : g.PosSize) (hre : e.rot.IsUnit)
+    (hrg : g.rot.IsUnit)
+    (hs : interArea (footprint e) (footprint g) = interArea (footprint g) (footprint e)) :
+    (0 ≤ boxIou2d (interArea (footprint e) (footprint g)) e g ∧
+      boxIou2d (interArea (footprint e) (footprint g)) e g ≤ 1) ∧
+    (0 ≤ boxIou3d (interArea (footprint e) (footprint g)) e g ∧
+      boxIou3d (interArea (footprint e) (footprint g)) e g ≤ 1) ∧
+    boxIou3d (interArea (footprint e) (footprint g)) e g ≤ boxIou2d (interArea (footprint e) (footprint g)) e g := by
+  have hok := interOK_clip_of_symm e g he hg hre hrg hs
+  have hA : 0 < areaBev e := by rw [areaBev_eq e he]; exact mul_pos he.1 he.2.1
+  have hB : 0 < areaBev g := by rw [areaBev_eq g hg]; exact mul_pos hg.1 hg.2.1
+  exact ⟨iou_bounds hok hA, iou3d_bounds _ _ _ _ hok hA he.2.2 hg.2.2,
+    iou3d_le_iouBev _ _ _ _ hok hA hB he.2.2 hg.2.2⟩
+
+/-! ### the symmetrised exact intersection area: the whole contract, by theorem -/
+
+theorem interOK_sym (e g : Box) (he : e.PosSize) (hg : g.PosSize) (hre : e.rot.IsUnit) (hrg : g.rot.IsUnit) :
+    InterOK (interSym (footprint e) (footprint g)) (areaBev e) (areaBev g) := by
+  refine ⟨interSym_nonneg _ _, ?_, ?_⟩
+  · have := interSym_le_left (footprint g) (cvx_footprint (le_of_lt he.1) (le_of_lt he.2.1) hre)
+    rwa [polyArea_footprint hre] at this
+  · have := interSym_le_right (footprint e) (cvx_footprint (le_of_lt hg.1) (le_of_lt hg.2.1) hrg)
+    rwa [polyArea_footprint hrg] at this
+
+theorem interSym_symm (e g : Box) : interSym (footprint e) (footprint g) = interSym (footprint g) (footprint e) :=
+  interSym_comm _ _
+
+/-- on every pair on which the clipper is symmetric the symmetrised value is the clipper's value -/
+theorem interSym_eq_clip_of_symm (e g : Box)
+    (hs : interArea (footprint e) (footprint g) = interArea (footprint g) (footprint e)) :
+    interSym (footprint e) (footprint g) = interArea (footprint e) (footprint g) := interSym_eq_of_symm hs
+
+theorem interSym_footprint_self (b : Box) (hb : b.PosSize) (hr : b.rot.IsUnit) :
+    interSym (footprint b) (footprint b) = areaBev b := by
+  rw [interSym_eq_of_symm rfl]; exact interArea_footprint_self b hb hr
+
+theorem interSym_rigid_invariant (m : Motion) (hm : m.rot.IsUnit) (e g : Box) :
+    interSym (footprint (e.move m)) (footprint (g.move m)) = interSym (footprint e) (footprint g) := by
+  rw [footprint_move_eq, footprint_move_eq, interSym_motion hm]
+
+theorem interSym_separated (e g : Box) (he : e.PosSize) (hg : g.PosSize) (hre : e.rot.IsUnit)
+    (hrg : g.rot.IsUnit) (h : Separated e g) : interSym (footprint e) (footprint g) = 0 :=
+  interSym_eq_zero_of_left (clip_interArea_separated e g he hg hre hrg h)
+
+/-- BEV IoU of two rotated boxes (symmetrised exact intersection): in [0,1] -/
+theorem symIou_bounds (e g : Box) (he : e.PosSize) (hg : g.PosSize) (hre : e.rot.IsUnit) (hrg : g.rot.IsUnit) :
+    0 ≤ boxIou2d (interSym (footprint e) (footprint g)) e g ∧
+      boxIou2d (interSym (footprint e) (footprint g)) e g ≤ 1 := by
+  have hA : 0 < areaBev e := by rw [areaBev_eq e he]; exact mul_pos he.1 he.2.1
+  exact iou_bounds (interOK_sym e g he hg hre hrg) hA
+
+/-- 3-D IoU of two rotated boxes: in [0,1], and never above the BEV IoU -/
+theorem symIou3d_bounds (e g : Box) (he : e.PosSize) (hg : g.PosSize) (hre : e.rot.IsUnit) (hrg : g.rot.IsUnit) :
+    (0 ≤ boxIou3d (interSym (footprint e) (footprint g)) e g ∧
+      boxIou3d (interSym (footprint e) (footprint g)) e g ≤ 1) ∧
+    boxIou3d (interSym (footprint e) (footprint g)) e g ≤ boxIou2d (interSym (footprint e) (footprint g)) e g := by
+  have hok := interOK_sym e g he hg hre hrg
+  have hA : 0 < areaBev e := by rw [areaBev_eq e he]; exact mul_pos he.1 he.2.1
+  have hB : 0 < areaBev g := by rw [areaBev_eq g hg]; exact mul_pos hg.1 hg.2.1
+  exact ⟨iou3d_bounds _ _ _ _ hok hA he.2.2 hg.2.2, iou3d_le_iouBev _ _ _ _ hok hA hB he.2.2 hg.2.2⟩
+
+/-- the code's two divisions do not raise for two rotated boxes of positive size -/
+theorem symIouCode_ok (e g : Box) (he : e.PosSize) (hg : g.PosSize) (hre : e.rot.IsUnit) (hrg : g.rot.IsUnit) :
+    iouCode (interSym (footprint e) (footprint g)) (areaBev e) (areaBev g)
+        = .ok (boxIou2d (interSym (footprint e) (footprint g)) e g) ∧
+    iou3dCode (interSym (footprint e) (footprint g)) (areaBev e) (areaBev g) e.h g.h (boxHeightInter e g)
+        = .ok (boxIou3d (interSym (footprint e) (footprint g)) e g) := by
+  have hok := interOK_sym e g he hg hre hrg
+  have hA : 0 < areaBev e := by rw [areaBev_eq e he]; exact mul_pos he.1 he.2.1
+  refine ⟨iouCode_eq hok hA, ?_⟩
+  exact iouCode_eq (InterOK.mul hok (heightInter_ok (le_of_lt he.2.2) (le_of_lt hg.2.2))) (mul_pos hA he.2.2)
+
+/-- symmetric in the two boxes: both argument orders, both IoUs (replaces `iou_symm` / `iou3d_symm`, whose
+symmetry of the intersection was a hypothesis) -/
+theorem symIou_symm (e g : Box) :
+    boxIou2d (interSym (footprint e) (footprint g)) e g = boxIou2d (interSym (footprint g) (footprint e)) g e ∧
+    boxIou3d (interSym (footprint e) (footprint g)) e g = boxIou3d (interSym (footprint g) (footprint e)) g e := by
+  rw [interSym_symm e g]
+  refine ⟨iou_comm _ _ _, ?_⟩
+  unfold boxIou3d boxHeightInter iou3d
+  rw [heightInter_symm, iou_comm]
+
+/-- 1 for identical boxes (an actual rotated box; replaces `iou_self_eq_one`) -/
+theorem symIou_self_eq_one (b : Box) (hb : b.PosSize) (hr : b.rot.IsUnit) :
+    boxIou2d (interSym (footprint b) (footprint b)) b b = 1 ∧
+    boxIou3d (interSym (footprint b) (footprint b)) b b = 1 := by
+  have hA : 0 < areaBev b := by rw [areaBev_eq b hb]; exact mul_pos hb.1 hb.2.1
+  rw [interSym_footprint_self b hb hr]
+  exact ⟨iou_self hA, iou3d_self_eq_one _ _ _ hA hb.2.2⟩
+
+/-- 0 for separated boxes (two actual rotated boxes with a separating edge; replaces `iou_disjoint_eq_zero`) -/
+theorem symIou_separated_eq_zero (e g : Box) (he : e.PosSize) (hg : g.PosSize) (hre : e.rot.IsUnit)
+    (hrg : g.rot.IsUnit) (h : Separated e g) :
+    boxIou2d (interSym (footprint e) (footprint g)) e g = 0 ∧
+    boxIou3d (interSym (footprint e) (footprint g)) e g = 0 := by
+  rw [interSym_separated e g he hg hre hrg h]
+  refine ⟨iou_zero _ _, ?_⟩
+  unfold boxIou3d iou3d; rw [zero_mul]; exact iou_zero _ _
+
+/-- unchanged by a common rotation about the ego + translation (replaces `boxIou_move_invariant`, whose
+`I' = I` was a hypothesis) -/
+theorem symIou_rigid_invariant (m : Motion) (hm : m.rot.IsUnit) (e g : Box) :
+    boxIou2d (interSym (footprint (e.move m)) (footprint (g.move m))) (e.move m) (g.move m)
+        = boxIou2d (interSym (footprint e) (footprint g)) e g ∧
+    boxIou3d (interSym (footprint (e.move m)) (footprint (g.move m))) (e.move m) (g.move m)
+        = boxIou3d (interSym (footprint e) (footprint g)) e g :=
+  boxIou_move_invariant m e g _ _ (interSym_rigid_invariant m hm e g)
+
+/-! ### the former registered theorems whose symmetry was a hypothesis, under honest names -/
+
+theorem iou_symm_of_inter_symm {α : Type} (inter : α → α → Rat) (area : α → Rat)
+    (hs : ∀ p q, inter p q = inter q p) (p q : α) :
+    iou (inter p q) (area p) (area q) = iou (inter q p) (area q) (area p) := iou_symm inter area hs p q
+
+theorem iou3d_symm_of_inter_symm (I I' A1 A2 z1 H1 z2 H2 : Rat) (hs : I' = I) :
+    iou3d I A1 A2 H1 H2 (heightInter z1 H1 z2 H2) = iou3d I' A2 A1 H2 H1 (heightInter z2 H2 z1 H1) := by
+  rw [hs]; exact iou3d_symm I A1 A2 z1 H1 z2 H2
+
+/-! ### non-vacuity and defective-variant examples -/
+
+/-- a square rotated by 45° (vertices (±1,0), (0,±1), area 2) against the axis-aligned square of half-side
+3/4 (area 9/4): the exact clipper returns the octagon's area 7/4 in BOTH orders; IoU = 7/10 -/
+example :
+    let P : List V2 := [⟨1, 0⟩, ⟨0, 1⟩, ⟨-1, 0⟩, ⟨0, -1⟩]
+    let Q : List V2 := [⟨3/4, 3/4⟩, ⟨-3/4, 3/4⟩, ⟨-3/4, -3/4⟩, ⟨3/4, -3/4⟩]
+    Cvx P ∧ Cvx Q ∧ 4 * interArea P Q = 7 ∧ 4 * interArea Q P = 7 ∧ polyArea P = 2 ∧ 4 * polyArea Q = 9 ∧
+      10 * iou (interArea P Q) (polyArea P) (polyArea Q) = 7 := by
+  decide +kernel
+
+/-- two rotated BOXES (2×2, one turned by the 3-4-5 rotation): hypotheses of the theorems hold, the clipper is
+symmetric on the pair, `I = 10/3`, BEV IoU `5/7` strictly between 0 and 1 -/
+example :
+    let e : Box := ⟨⟨0, 0, 0⟩, ⟨3/5, 4/5⟩, 2, 2, 1⟩
+    let g : Box := ⟨⟨0, 0, 0⟩, ⟨1, 0⟩, 2, 2, 1⟩
+    e.rot.IsUnit ∧ g.rot.IsUnit ∧
+      interArea (footprint e) (footprint g) = interArea (footprint g) (footprint e) ∧
+      3 * interArea (footprint e) (footprint g) = 10 ∧
+      7 * boxIou2d (interSym (footprint e) (footprint g)) e g = 5 := by
+  unfold Rot2.IsUnit
+  decide +kernel
+
+/-- separated rotated boxes, the separating edge owned by the CLIP box (`SepByEdge e g`) -/
+example :
+    let e : Box := ⟨⟨5, 0, 0⟩, ⟨3/5, 4/5⟩, 2, 2, 1⟩
+    let g : Box := ⟨⟨0, 0, 0⟩, ⟨1, 0⟩, 2, 2, 1⟩
+    SepByEdge e g ∧ Separated e g ∧ interArea (footprint e) (footprint g) = 0 := by
+  decide +kernel
+
+/-- separated rotated boxes where NO edge of the clip box separates, only an edge of the subject (corner
+of `g` facing a side of `e`): still `I = 0` -/
+example :
+    let e : Box := ⟨⟨2, 2, 0⟩, ⟨3/5, 4/5⟩, 2, 2, 1⟩
+    let g : Box := ⟨⟨0, 0, 0⟩, ⟨1, 0⟩, 2, 2, 1⟩
+    ¬ SepByEdge e g ∧ SepByEdge g e ∧ Separated e g ∧ interArea (footprint e) (footprint g) = 0 := by
+  decide +kernel
+
+/-- DEFECTIVE clipper (`clipStepBad`: wrong sign in the inside test of the previous vertex): the statement of
+`clip_interArea_le_subject` FAILS for it — subject in convex position of area 32, "intersection" 36 -/
+example :
+    let P : List V2 := [⟨6, 2⟩, ⟨2, 6⟩, ⟨-2, 2⟩, ⟨2, -2⟩]
+    let Q : List V2 := [⟨1, 1⟩, ⟨6, 1⟩, ⟨6, 6⟩, ⟨1, 6⟩]
+    Cvx P ∧ ¬ (interAreaBad P Q ≤ polyArea P) ∧ interArea P Q ≤ polyArea P := by
+  decide +kernel
 
 end PEval.C06
